@@ -383,6 +383,11 @@ def run(ctx, deep=False):
         bad = oracle(ops, recs)
         if bad:
             ctx.violation(bad[0], {"ops": ops[: bad[1] + 1], "eoc": eoc}, bad[2])
+            if bad[0] in (KEY_F20, KEY_F21, KEY_F23):
+                # beyond a known defect the session is in a state the model does not follow
+                # (e.g. flushing an object whose row is gone): compare up to that step only
+                ops, recs = ops[: bad[1] + 1], recs[: bad[1] + 1]
+                case = {"ops": ops, "eoc": eoc}
         cases.append(case)
         impl_out.append("|".join(recs) if recs else "-")
         reqs.append("sess run %d %s" % (1 if eoc else 0, ";".join(ops) if ops else "-"))
@@ -403,7 +408,7 @@ def run(ctx, deep=False):
         ctx.correspond("corr/c33:Session-vs-Model.Sess", cases, impl_out, ctx.driver(reqs))
 
 
-MODEL_READY = False
+MODEL_READY = True
 
 
 def search(ctx, broken):
